@@ -143,6 +143,30 @@ fn programs(cfg: &Cfg, grp: &str, case: u64, rng: &mut Rng, rep: &mut Report, ns
         "budgets": m.pool.iter().map(|e| json!({"origin": e.origin, "size": e.ct.size(), "level": e.level, "library_budget": lib_budget(&m, &e.ct).ok(), "exact_budget": m.oracle_decrypt(&e.ct).map(|x| x.1)})).collect::<Vec<_>>()})); }
 }
 
+/// fresh encryptions with a large plain modulus (40..59 bits): exercises the 128-bit carries of the q*m/t rounding
+fn fresh_large_t(cfg: &Cfg, grp: &str, case: u64, rng: &mut Rng, rep: &mut Report) {
+    let scheme = if rng.bool() { SchemeType::BFV } else { SchemeType::BGV };
+    let n = *rng.pick(&[8usize, 16, 32, 64]);
+    let Some(qs) = coeff_primes(n, &[60, 60, 59], rng) else { return };
+    let tb = rng.range(40, 59) as u32;
+    let mut t = rng.bits(tb) | (1 << (tb - 1)) | 1;
+    while qs.iter().any(|&q| refm::gcd(q, t) != 1) { t += 2; }
+    let spec = Spec { scheme, n, qs, t, special_flag: rng.chance(1, 3), expand: true, family: format!("large_t_{}bits", tb) };
+    let Ok(kit) = Kit::new(&spec) else { return };
+    let o = Obs { cfg, grp, case };
+    let mut m = Machine::new(&kit, true);
+    if m.oracle.is_none() { return; }
+    let mut trace = vec![];
+    for _ in 0..6 {
+        let (cls, coeffs) = gen_plain(rng, m.n(), m.t());
+        let pk = rng.bool();
+        trace.push(format!("fresh({}, {})", cls, if pk { "pk" } else { "sk" }));
+        let Ok(i) = m.fresh(&coeffs, pk) else { return };
+        fresh_check(&o, rep, &m, i, pk, &trace);
+        rep.count("large_t_bits", &format!("{}", tb));
+    }
+}
+
 /// k-fold sums, k = 2..64
 fn sums(cfg: &Cfg, grp: &str, case: u64, rng: &mut Rng, rep: &mut Report) {
     let Some(spec) = spec_for(rng, &[2, 4, 8, 16]) else { return };
@@ -225,6 +249,7 @@ pub fn run(cfg: &Cfg, rep: &mut Report) -> PropMeta {
     run_cases(cfg, "programs_mid", cfg.n(60, 1500) as u64, rep, |i, rng, rep| programs(cfg, "programs_mid", i, rng, rep, &[64, 128, 256]));
     if !cfg.quick() { run_cases(cfg, "programs_1024", cfg.n(1, 40) as u64, rep, |i, rng, rep| programs(cfg, "programs_1024", i, rng, rep, &[512, 1024])); }
     run_cases(cfg, "burn", cfg.n(3000, 60000) as u64, rep, |i, rng, rep| burn(cfg, "burn", i, rng, rep));
+    run_cases(cfg, "fresh_large_t", cfg.n(1500, 30000) as u64, rep, |i, rng, rep| fresh_large_t(cfg, "fresh_large_t", i, rng, rep));
     run_cases(cfg, "sums", cfg.n(1500, 30000) as u64, rep, |i, rng, rep| sums(cfg, "sums", i, rng, rep));
     PropMeta {
         id: "C07", level: "exploration",
